@@ -221,6 +221,9 @@ struct Engine<'a, R: Rec> {
     op_name: &'static str,
     scratch: ObsList,
     addr_scratch: Vec<AddrObs>,
+    /// a model-dependent oracle fired at an earlier step
+    tainted: bool,
+    tainted_next: bool,
 }
 
 fn prop_of_last(last: &str) -> &'static str {
@@ -233,9 +236,19 @@ fn prop_of_last(last: &str) -> &'static str {
 }
 
 impl<'a, R: Rec> Engine<'a, R> {
+    /// Oracles that do not consult the reference model (shadow anomalies, addresses of references):
+    /// they stay meaningful after another oracle has fired, when the model can no longer be trusted.
+    fn model_independent(clause: &str) -> bool {
+        clause.contains("/hook-") || clause.starts_with("C07/ref-aligned") || clause.starts_with("C07/in-bounds") || clause.starts_with("C07/record-aligned")
+    }
+
     fn v(&mut self, clause: &str, message: String) {
-        if self.out.violations.len() >= 12 {
+        if self.out.violations.len() >= 12 || (self.tainted && !Self::model_independent(clause)) {
             return;
+        }
+        if !Self::model_independent(clause) {
+            // from here on only the model-independent oracles keep judging this history
+            self.tainted_next = true;
         }
         let step = self.step;
         let op = self.op_name.to_string();
@@ -414,6 +427,28 @@ impl<'a, R: Rec> Engine<'a, R> {
             self.out.states.insert(h);
         });
     }
+
+    /// hooks-on arm: anomalies seen by the ownership shadow inside `truc_runtime::data`
+    #[cfg(truc_verif_hooks)]
+    fn drain_hooks(&mut self) {
+        let anomalies = alloc::harness(truc_runtime::verif::take_anomalies);
+        for a in anomalies.iter() {
+            let props: &[&str] = match a.kind {
+                "store-onto-owned-value" | "buffer-dropped-owning-value" => &["C07", "C06"],
+                _ => &["C07"],
+            };
+            for p in props {
+                let clause = alloc::harness(|| format!("{}/hook-{}", p, a.kind));
+                let msg = alloc::harness(|| a.detail.clone());
+                self.v(&clause, msg);
+                alloc::harness(|| drop(clause));
+            }
+        }
+        alloc::harness(|| drop(anomalies));
+    }
+
+    #[cfg(not(truc_verif_hooks))]
+    fn drain_hooks(&mut self) {}
 
     // ---- operations ------------------------------------------------------------------------
 
@@ -1365,6 +1400,7 @@ impl<'a, R: Rec> Engine<'a, R> {
                 Op::VecConvert { r, n, form, script, spare } => self.do_vec_convert(*r, *n, *form, script, *spare),
             }
             self.conservation(extra);
+            self.drain_hooks();
             // fold what the world looks like now
             let mut h = self.out.hash;
             for l in &self.world {
@@ -1383,8 +1419,10 @@ impl<'a, R: Rec> Engine<'a, R> {
             fold(&mut h, self.out.violations.len() as u64);
             self.out.hash = h;
             self.out.steps += 1;
-            if !self.out.violations.is_empty() {
-                break;
+            // all oracles of the step that found the first violation still report; afterwards the
+            // history goes on with the model-independent ones only
+            if self.tainted_next {
+                self.tainted = true;
             }
         }
     }
@@ -1394,6 +1432,8 @@ pub fn run_history<R: Rec>(ops: &[Op], cfg: &RunCfg) -> Outcome {
     let mut out = Outcome { hash: FNV_INIT, ..Default::default() };
     ledger::reset();
     tok::plan_reset();
+    #[cfg(truc_verif_hooks)]
+    alloc::harness(|| drop(truc_runtime::verif::take_anomalies()));
     let base_bytes = alloc::live_bytes();
     {
         let src = Src::new();
@@ -1407,6 +1447,8 @@ pub fn run_history<R: Rec>(ops: &[Op], cfg: &RunCfg) -> Outcome {
             op_name: "start",
             scratch: alloc::harness(|| Vec::with_capacity(64)),
             addr_scratch: alloc::harness(|| Vec::with_capacity(64)),
+            tainted: false,
+            tainted_next: false,
         };
         e.run(ops);
         // end of life of everything: every instance destroyed exactly once, heap back to baseline
@@ -1418,6 +1460,18 @@ pub fn run_history<R: Rec>(ops: &[Op], cfg: &RunCfg) -> Outcome {
         }
         if clean {
             e.conservation(&[]);
+        }
+        e.drain_hooks();
+        #[cfg(truc_verif_hooks)]
+        {
+            let c = truc_runtime::verif::counters();
+            alloc::harness(|| {
+                e.out.probes.insert("hook_reads", c.reads);
+                e.out.probes.insert("hook_writes", c.writes);
+                e.out.probes.insert("hook_refs", c.refs);
+                e.out.probes.insert("hook_zst_accesses", c.zst_accesses);
+                e.out.probes.insert("hook_stores_to_misaligned_destination", c.stores_to_misaligned_destination);
+            });
         }
         let Engine { world, src, scratch, addr_scratch, .. } = e;
         alloc::harness(|| {
